@@ -2,15 +2,19 @@
 // then base.
 //
 // Oracle: the independent dictionary model internal/refdict, fed with the
-// same XML documents in the same order as the parser under test. Four parts:
+// same XML documents in the same order as the parser under test. Five parts:
 //
 //	c17_test.go    the single-lookup comparison (shared) and part 1: the
 //	               exhaustive grid over the embedded dictionaries (dict.Default)
 //	sets_test.go   part 2: generated dictionary sets loaded in every order
 //	               into fresh parsers; model comparison + monotonicity
 //	types_test.go  part 3: every type name the parser accepts loads, decodes
-//	               and encodes
+//	               and encodes (DecodeAVP / NewAVP)
+//	marshal_test.go        ... and is encoded by Message.Marshal from a struct
+//	               field and given back by Unmarshal
 //	consts_test.go part 4: exported code constants vs the embedded XML
+//	default_test.go part 5: documents loaded into dict.Default itself (before
+//	               / after its first use), each case in a child process
 //
 // What is consciously NOT asserted (the statement is silent):
 //   - which of two differing definitions of the same key inside ONE document
